@@ -262,8 +262,8 @@ func classifySeries(c *ev.Case, s series) {
 }
 
 // classifySearch counts the shape of an executed search; returns whether it is non-trivial by the rule:
-// >= 2 different operators or a regex that is neither a literal nor anchored literal, over >= 5 series of the
-// measurement, with at least one series lacking one of the referenced tags.
+// >= 2 different operators (of = != =~ !~ AND OR) or a regex that is neither a literal nor anchored literal,
+// over >= 5 series of the measurement, with at least one series lacking one of the referenced tags.
 func classifySearch(c *ev.Case, p *pnode, r *runner, mst string) bool {
 	ops := map[string]bool{}
 	richRegex := false
@@ -273,6 +273,7 @@ func classifySearch(c *ev.Case, p *pnode, r *runner, mst string) bool {
 		}
 		if !n.leaf() {
 			c.Class("pred_" + n.Op)
+			ops[n.Op] = true
 			return
 		}
 		ops[n.Op] = true
@@ -334,6 +335,9 @@ func TestHistoryBloom(t *testing.T) {
 	rapid.Check(t, ev.Prop(prop, "history_bloom", machine(machineParams{campaign: "history_bloom", rung: rungEq, searchBias: 2, bloom: true})))
 }
 
+// TestUnflushed is NOT part of the campaign table: it probes the known-finding class that the other campaigns
+// leave out by construction (cache clear while freshly created series are not yet flushed to the item store,
+// replays/C10/dup_id_after_cache_clear_unflushed.json). It must pass once that finding is repaired.
 func TestUnflushed(t *testing.T) {
 	rapid.Check(t, ev.Prop(prop, "unflushed_clear", machine(machineParams{campaign: "unflushed_clear", rung: rungEq, searchBias: 0, unflushed: true})))
 }
